@@ -44,7 +44,7 @@ from translate import c10_findap_numba as _tr  # noqa: E402
 ID = "C10"
 LEAN_MODULES = ["PyYetiVerif.Props.C10", "PyYetiVerif.Props.C10Fde", "PyYetiVerif.Props.C10PreFix",
                 "PyYetiVerif.Props.C10Bins", "PyYetiVerif.Props.C10Labels", "PyYetiVerif.Props.C10Psd", "PyYetiVerif.Props.C10Locate",
-                "PyYetiVerif.Audit.C10"]
+                "PyYetiVerif.Props.C10Cell", "PyYetiVerif.Props.C10Dups", "PyYetiVerif.Audit.C10"]
 AUDIT_FILE = "PyYetiVerif/Audit/C10.lean"
 THEOREMS = ["PyYetiVerif.C10." + n for n in (
     # findap, both variants, the code after the repairs f8f6e40 / 4b29dcf - full strength
@@ -55,6 +55,8 @@ THEOREMS = ["PyYetiVerif.C10." + n for n in (
     "digitize_eq_iff explicit_bins_range binify_drops_uncovered binify_conserves_2d binify_explicit_bins_spec "
     "roundHalfEven_close labels_distinct_of_gap label_collision_example getLabels_length binify_packaging sigcount_is_composition "
     "sigcount_auto_conserves "
+    # the table cell by cell (row = mean bin, column = amplitude bin, np.digitize's edge convention)
+    "binify_cell_sum binify_cell_sum_unguarded bins_disjoint binify_explicit_is_guarded binify_explicit_cell_sum binify_auto_cell_sum "
     # fdepsd bookkeeping
     "cum_count_antitone count_col0_total bincount_sum_total G2_ge_G1 amax_le_srs bincount_spec damage_def damage_per_cycle "
     "table_scaling test_damage_positive test_variance_reproduces_internal test_variance_reproduces var_test_is_documented_variance "
@@ -63,6 +65,7 @@ THEOREMS = ["PyYetiVerif.C10." + n for n in (
     "resp_switch_G1_G2 fdeFreq_neg psd_quadratic_scaling_full psd_quadratic_scaling_input "
     # locate
     "find_unique_spec find_unique_length findap_uses_find_unique find_unique_boundary_example "
+    "find_duplicates_eq_spec find_duplicates_iff find_duplicates_length find_duplicates_neg_tol find_duplicates_example "
 ).split()]
 TRUSTED = [
     "correspondence harness harness/props/c10.py (exact comparison on dyadic inputs; bit-for-bit on srs/Amax/binamps/count/bincount "
@@ -111,10 +114,12 @@ PARTIAL = (
     "findap (both variants, the code after the repairs f8f6e40 / 4b29dcf) and the fdepsd test-variance relation (both resp, after "
     "4ed3a4d) are proved at full strength; what the pre-fix text did is recorded in Props/C10PreFix.lean outside the claims.  Still "
     "partial: auto_bins_cover / binify_auto_conserves / labels_distinct_of_gap are over exact arithmetic (doubles: finding F41, fixed; "
-    "labels of computed edges within 1e-6 of a rounding boundary are skipped and counted).  binify: the total of the table and the cell "
-    "of every cycle are proved (binify_places, binify_drops_uncovered, binify_conserves_2d, binify_explicit_bins_spec); the "
-    "cell-by-cell sum formula is not stated as a theorem.  find_duplicates: code model and documented meaning are both in Lean and "
-    "compared on every run; their equivalence is not proved.  psd_quadratic_scaling_full covers c of either sign from the filtered "
+    "labels of computed edges within 1e-6 of a rounding boundary are skipped and counted).  binify: every cell of the table is proved to be the summed count of "
+    "the cycles of its amplitude x mean interval (binify_cell_sum, also through the API for explicit and automatic bins), and the table "
+    "total (binify_conserves_2d) is proved separately, not re-derived from the cell sums.  find_duplicates: the code model equals the "
+    "documented meaning for every tolerance and every vector (find_duplicates_eq_spec, exact arithmetic; argsort's order among equal "
+    "values does not matter to the proof, which uses only that the sort result is a sorted permutation - the model's sort is a merge "
+    "sort).  psd_quadratic_scaling_full covers c of either sign from the filtered "
     "response on; that detrend/windowends/butter/lfilter/resample are homogeneous is the specification IsLinear "
     "(psd_quadratic_scaling_input), sampled by the oracle's x4 and x(-4) runs, not proved.  G2_ge_G1_loop assumes every examined "
     "level's count is below the total (equality: division by zero, G2 = inf in doubles, still >= G1).  String rendering of labels "
@@ -126,13 +131,14 @@ MANIFEST = {
     "level_text": "proof (findap: both variants at full strength - first sample, strict alternation, extremes within stol, variants agree; "
                   "binning, labels, sigcount; fdepsd bookkeeping incl. the test-variance relation for both resp)",
     "level_note": "selection (default variant incl. _unique_kept's vectorised test and sequential scan; numba variant as source text), "
-                  "binning (explicit and automatic bins, both `right` conventions, 2-D counts, what is dropped), labels/packaging, "
-                  "sigcount as a composition and locate.find_unique are modelled exactly over Rat and proved about; everything fdepsd "
+                  "binning (explicit and automatic bins, both `right` conventions, 2-D counts cell by cell, what is dropped), "
+                  "labels/packaging, sigcount as a composition and locate.find_unique / find_duplicates (code = documented meaning) are "
+                  "modelled exactly over Rat and proved about; everything fdepsd "
                   "computes per frequency after lfilter is one polymorphic Lean definition, proved about over the reals (amax_le_srs, "
                   "bincount_spec, count_is_upper_cumulative, damage_def, psd_G_formulas, test_variance_reproduces, "
                   "var_test_is_documented_variance, G2_ge_G1_loop, psd_quadratic_scaling_full for c of either sign) and run at Float "
                   "against every returned table; only tied/measured: lfilter and the signal pre-processing (specification IsLinear), libm "
-                  "rounding of log/sqrt/pow, decimal string rendering of labels, find_duplicates' equivalence with its documented meaning",
+                  "rounding of log/sqrt/pow, decimal string rendering of labels",
     "technique": "Lean 4 theorems about executable models + exact correspondence + Float run of the same definitions (numeric 1e-9) "
                  "+ ast transcription of the numba variant with a static no-unbound-read obligation",
 }
@@ -1517,6 +1523,10 @@ def _oracle_binify(ctx, cyc, right, check, specs):
                 if in_m and in_a:
                     want[i, j] += c
     if covered or check:
+        # the statement of binify_cell_sum / binify_explicit_cell_sum / binify_auto_cell_sum, cell by cell (`want` above)
+        ctx.count("oracle:binify-cell-sum")
+        if (want > np.max([c for _, _, c in cyc])).any() or len(cyc) > np.count_nonzero(want):
+            ctx.count("oracle:binify-cell-sum:several-cycles-in-one-cell-or-dropped")
         if covered and T.sum() != total:
             ctx.fail("binify-count-not-conserved-right=%d" % right, "bins cover the data but the table total differs from the cycle count",
                      inp, float(T.sum()), total)
